@@ -1748,6 +1748,7 @@ extern int32 psWriteHandshakeHeader(ssl_t *ssl, unsigned char type, int32 len,
 extern int32 sslEncodeResponse(ssl_t *ssl, psBuf_t *out, uint32 *requiredLen);
 extern int32 sslActivateReadCipher(ssl_t *ssl);
 extern int32 sslActivateWriteCipher(ssl_t *ssl);
+extern int32 sslWriteSeqExhausted(const ssl_t *ssl);
 extern int32_t sslUpdateHSHash(ssl_t *ssl, const unsigned char *in, psSize_t len);
 extern int32 sslInitHSHash(ssl_t *ssl);
 extern int32 sslSnapshotHSHash(ssl_t *ssl,
